@@ -59,6 +59,14 @@ CLAIMED = {
             "rank lists, non-contiguous and lazily conjugated core views, requires_grad cores), all four dtypes.",
             "Trusted: torch.equal, storage pointers, the checker's dense contraction. CPU only.",
             "DESIGN.md 4/C19"),
+    "C18": ("property-based testing (Hypothesis): catalogue of single-aspect invalidations of valid generated calls for every public entry point; must-raise (and documented-class) oracle with a valid twin executed alongside",
+            "For ~90 (entry point x incompatibility class) catalogue entries a valid call is generated and broken in "
+            "exactly one aspect known to have no dense counterpart; the invalid call must raise (hard) and, where the "
+            "docstring's Raises covers it, with one of the library's error classes (typed); the valid twin runs in the same "
+            "case so 'raises for another reason' is excluded.",
+            "Trusted: the catalogue's claim that each mutation has no dense counterpart (each entry reviewed against the "
+            "documented broadcasting rules). Not exhaustive over entry points' optional arguments.",
+            "DESIGN.md 4/C18"),
     "C15": ("property-based testing (Hypothesis): grammar-generated scalar expressions over the differentiable TT ops, three-way gradient agreement (TT autograd / dense autograd / finite differences)",
             "Generated expression chains and terminals over all listed differentiable operations with a drawn subset of "
             "tracked leaves/cores (direct or grad.watch); oracle = dense autograd on the same leaf cores through the "
